@@ -182,7 +182,7 @@ pub const ALL_EDIT_KINDS: &[&str] = &[
     "delete_decl", "dup_decl", "swap_decls", "move_decl", "rename_export", "toggle_export",
     "retarget_import", "add_export_star", "second_default", "alias_wrap", "flip_primitive",
     "add_property", "append_type", "truncate", "drop_line", "stray_token", "unbalance", "garbage",
-    "foreign_content", "revert", "create_file", "delete_file", "touch", "shadow_file", "package_shadow",
+    "foreign_content", "revert", "create_file", "delete_file", "touch", "shadow_file", "package_shadow", "case_twin",
 ];
 
 pub struct EditCtx<'a> {
@@ -270,6 +270,28 @@ pub fn apply_edit(kind: &'static str, fs: &Fs, f: &str, content: &str, rng: &mut
             // same exports, one property more: resolution decides which one is seen
             let body = content.replacen('{', "{ shadow_marker?: true; ", 1);
             one("shadow_file", &target, body)
+        }
+        "case_twin" => {
+            // a second file whose path differs from an existing one only in letter case
+            // (legal on case-sensitive file systems), with different content
+            let name = f.rsplit('/').next()?;
+            let twin_name: String = if name.chars().next()?.is_lowercase() {
+                let mut c = name.chars();
+                let first = c.next()?.to_uppercase().to_string();
+                format!("{}{}", first, c.as_str())
+            } else {
+                name.to_lowercase()
+            };
+            if twin_name == name {
+                return None;
+            }
+            let dir = dirname(f);
+            let target = format!("{}/{}", if dir == "/" { "" } else { dir }, twin_name);
+            if fs.contains_key(&target) {
+                return None;
+            }
+            let body = content.replacen('{', "{ case_twin_marker?: 1; ", 1);
+            one("case_twin", &target, body)
         }
         "package_shadow" => {
             // a package that is imported by a bare specifier gets a second copy that now wins the
